@@ -86,6 +86,58 @@ theorem C11_denied_response (chain : List Wrapper) (h : Handler) (req : Req)
       else .forbiddenAuth :=
   authFirst_denied chain h req hc hu hf hp ha
 
+/-! ## Basic credentials are correct only for an existing user -/
+
+/-- No credential whose name is not the exact name of a configured user is
+"correct", whatever the password and whatever `bcrypt` says. -/
+theorem C11_basic_needs_existing_user (users : List (Bytes × Bytes))
+    (verifies : Bytes → Bytes → Bool) (name pass : Bytes)
+    (h : basicClass users verifies (some (name, pass)) = .right) :
+    ∃ u ∈ users, u.1 = name ∧ verifies u.2 pass = true := by
+  have hf : findUserOK users verifies name pass = true := by
+    cases hq : findUserOK users verifies name pass with
+    | true => rfl
+    | false => simp [basicClass, hq] at h
+  unfold findUserOK at hf
+  obtain ⟨u, hu, hq⟩ := List.any_eq_true.mp hf
+  simp only [Bool.and_eq_true, beq_iff_eq] at hq
+  exact ⟨u, hu, hq.1, hq.2⟩
+
+/-- In particular the empty name (`Authorization: Basic Og==`), as long as no
+configured user has the empty name; and nothing at all when no user exists. -/
+theorem C11_basic_empty_name_rejected (users : List (Bytes × Bytes))
+    (verifies : Bytes → Bytes → Bool) (pass : Bytes) (hne : ∀ u ∈ users, u.1 ≠ []) :
+    basicClass users verifies (some ([], pass)) = .wrong := by
+  cases hc : basicClass users verifies (some ([], pass)) with
+  | wrong => rfl
+  | none =>
+    cases hq : findUserOK users verifies [] pass <;> simp [basicClass, hq] at hc
+  | right =>
+    obtain ⟨u, hu, hn, _⟩ := C11_basic_needs_existing_user users verifies [] pass hc
+    exact absurd hn (hne u hu)
+
+/-- End to end for the Basic branch: a request without session cookie and without
+gl-inet token that reaches a handler behind the gate on a non-public path carries
+the exact name of a configured user and a password that verifies for that user. -/
+theorem C11_basic_gate (chain : List Wrapper) (h : Handler) (req : Req)
+    (users : List (Bytes × Bytes)) (verifies : Bytes → Bytes → Bool) (cred : Option (Bytes × Bytes))
+    (hb : req.basic = basicClass users verifies cred)
+    (hmem : .optionalAuth ∈ chain) (hu : authRequired req = true)
+    (hp : isPublicResource req.path = false) (hc : req.cookie = .none)
+    (hg : glProcessCookie req = false) (hr : run chain h req = .ran) :
+    ∃ name pass, cred = some (name, pass) ∧ ∃ u ∈ users, u.1 = name ∧ verifies u.2 pass = true := by
+  have ha := C11_auth_gate chain h req hmem hu hp hr
+  unfold authenticated at ha
+  rw [hg, hc] at ha
+  simp only [Bool.false_or, sessionOrBasic, Bool.and_eq_true, beq_iff_eq] at ha
+  have hright := ha.1
+  rw [hb] at hright
+  cases cred with
+  | none => simp [basicClass] at hright
+  | some c =>
+    obtain ⟨name, pass⟩ := c
+    exact ⟨name, pass, rfl, C11_basic_needs_existing_user users verifies name pass hright⟩
+
 /-! ## No other header takes part in the decision -/
 
 /-- The gate's own decision is a function of the path, the class of the session
@@ -96,7 +148,7 @@ wrapped handler. -/
 theorem C11_auth_decision_factors (g : Handler) (req : Req) :
     optionalAuthW g req =
       (authDecision req.path req.cookie req.basic (authRequired req) req.glMode
-        (glProcessCookie req)).getD (g req) :=
+        (glProcessCookie req) req.addrBlocked).getD (g req) :=
   optionalAuthW_decision g req
 
 /-- For any chain: two requests that differ only in their other headers (an
@@ -113,7 +165,7 @@ theorem C11_auth_ignores_other_headers (chain : List Wrapper) (h : Handler) (a b
 nothing in what the wrappers do. -/
 theorem C11_headers_irrelevant (chain : List Wrapper) (req : Req) (hs : List (Bytes × Bytes)) :
     run chain (fun _ => .ran) { req with headers := hs } = run chain (fun _ => .ran) req :=
-  C11_auth_ignores_other_headers chain _ _ _ ⟨rfl, rfl, rfl, rfl, rfl, rfl, rfl, rfl, rfl, rfl, rfl, rfl⟩ rfl
+  C11_auth_ignores_other_headers chain _ _ _ ⟨rfl, rfl, rfl, rfl, rfl, rfl, rfl, rfl, rfl, rfl, rfl, rfl, rfl, rfl⟩ rfl
 
 /-! ## Method and content type -/
 
@@ -237,13 +289,14 @@ login redirect, and the answer does not depend on the handler. -/
 theorem C11_unauthenticated_never_runs (r : Route) (hr : r ∈ Gen.routes) (req : Req)
     (issued : GLStat) (hfs : nameResolves req issued) (hnow : glTimeout < req.now)
     (hs : servedBy r.pattern req.path = true)
+    (hn : req.authNil = false)
     (hu : (req.usersExist || req.glMode) = true) (hf : req.firstRun = false)
     (hp : specPublicPath req.path = false) (ha : specAuthenticated req issued = false) :
     (∀ h₁ h₂ : Handler, run r.chain h₁ req = run r.chain h₂ req) ∧
     (∀ h : Handler, run r.chain h req = .forbiddenAuth ∨ run r.chain h req = .forbiddenPre ∨
       run r.chain h req = .redirect (loginTarget req.glMode)) := by
   have hu' : authRequired req = true := by
-    unfold authRequired; rw [Bool.or_comm]; exact hu
+    unfold authRequired; rw [Bool.or_comm, hn]; simpa using hu
   have hp' : isPublicResource req.path = false := by
     cases hq : isPublicResource req.path with
     | false => rfl
@@ -262,11 +315,60 @@ theorem C11_unauthenticated_never_runs (r : Route) (hr : r ∈ Gen.routes) (req 
     · exact Or.inr (Or.inr rfl)
     · exact Or.inl rfl
 
+/-! ## Start-up: users in the configuration ⇒ the gate is on -/
+
+/-- Whatever state `data/sessions.db` is in, start-up either stops or goes on with
+an auth module (never with `globalContext.auth == nil`). -/
+theorem C11_startup_never_without_auth (st : StoreState) (n : Bool) (h : startup st = some n) :
+    n = false := by
+  unfold startup at h
+  split at h
+  · injection h with h; exact h.symm
+  · cases h
+
+/-- No state of the session store opens the gate: after any start-up that goes
+on, a configured user means authentication is required (so every theorem above
+that assumes `authRequired` applies). -/
+theorem C11_users_exist_gate_on (st : StoreState) (n : Bool) (req : Req)
+    (hs : startup st = some n) (hn : req.authNil = n) (hu : req.usersExist = true) :
+    authRequired req = true := by
+  have := C11_startup_never_without_auth st n hs
+  subst this
+  simp [authRequired, hn, hu]
+
+/-- The start-up code as it is now (regenerated facts): every assignment to
+`globalContext.auth` is the checked one from `initUsers` followed by
+`fatalOnError`, or the `nil` of the shutdown path after the web server is
+closed; every `return nil, …` of `initUsers` carries an error that cannot be nil,
+every other return comes after the nil check.  And the checked assignment is
+there. -/
+theorem C11_auth_never_nil_after_startup :
+    Gen.authFacts.all authFactOK = true ∧
+    Gen.authFacts.any (fun f => f.kind == .assignCheckedFatal) = true ∧
+    Gen.authFacts.any (fun f => f.kind == .returnNilWithError) = true := by
+  decide +kernel
+
+/-- The gate's Basic branch decides by `findUser`'s verdict: on the gate path every
+call of `findUser` discards the returned user (`_, ok = …`) and the variable that
+receives the verdict is assigned nowhere else (regenerated def-use facts). -/
+theorem C11_gate_uses_finduser_verdict :
+    Gen.gateUseFacts.all authFactOK = true ∧
+    Gen.gateUseFacts.any (fun f => f.kind == .findUserVerdictOnly) = true := by
+  decide +kernel
+
+/-- Why it matters: with the auth module missing the gate requires nothing. -/
+theorem C11_nil_auth_opens_gate :
+    run [.postInstall, .optionalAuth, .gzip, .ensure sGET] (fun _ => .ran)
+      { path := [47, 120], method := sGET, cookie := .none, basic := .none, ctype := [],
+        contentLength := 0, firstRun := false, usersExist := true, authNil := true } = .ran := by
+  decide
+
 /-! ## gl-inet mode: the router's token file is the credential, by name -/
 
 /-- In gl-inet mode authentication is always required, user or no user. -/
-theorem C11_gl_always_required (req : Req) (hg : req.glMode = true) : authRequired req = true := by
-  simp [authRequired, hg]
+theorem C11_gl_always_required (req : Req) (hn : req.authNil = false) (hg : req.glMode = true) :
+    authRequired req = true := by
+  simp [authRequired, hg, hn]
 
 /-- The token gate opens only in gl-inet mode, for a request whose `Admin-Token`
 cookie is a non-empty value without separator, when the token of exactly that
@@ -337,11 +439,11 @@ with a fresh token of exactly the cookie's name, a valid session or correct
 basic credentials. -/
 theorem C11_gl_gate (chain : List Wrapper) (h : Handler) (req : Req) (issued : GLStat)
     (hfs : nameResolves req issued) (hnow : glTimeout < req.now)
-    (hmem : .optionalAuth ∈ chain) (hg : req.glMode = true)
+    (hmem : .optionalAuth ∈ chain) (hn : req.authNil = false) (hg : req.glMode = true)
     (hp : isPublicResource req.path = false) (hr : run chain h req = .ran) :
     specAuthenticated req issued = true :=
   auth_sub_spec req issued hfs hnow
-    (C11_auth_gate chain h req hmem (C11_gl_always_required req hg) hp hr)
+    (C11_auth_gate chain h req hmem (C11_gl_always_required req hn hg) hp hr)
 
 /-- A missing, unreadable or too short token file, and a token older than the
 timeout, never authenticate (clock past 1970-01-01 01:00). -/
@@ -378,7 +480,7 @@ theorem C11_state_changing_body_json (r : Route) (hr : r ∈ Gen.routes) (req : 
 /-- The model satisfies the spec monitor on every request, for every route of
 the regenerated table that can serve it and for the mux's own answers. -/
 theorem C11_model_meets_spec (s : Served) (req : Req) (issued : GLStat)
-    (hfs : nameResolves req issued) (hnow : glTimeout < req.now)
+    (hfs : nameResolves req issued) (hnow : glTimeout < req.now) (hn : req.authNil = false)
     (hs : match s with
       | .route r => r ∈ Gen.routes ∧ servedBy r.pattern req.path = true
       | _ => True) :
@@ -395,7 +497,7 @@ theorem C11_model_meets_spec (s : Served) (req : Req) (issued : GLStat)
       unfold protectedReq at hprot
       simp only [Bool.and_eq_true, Bool.not_eq_true'] at hprot
       obtain ⟨⟨⟨hu, hf⟩, hp⟩, ha⟩ := hprot
-      rcases (C11_unauthenticated_never_runs r hr req issued hfs hnow hsv hu hf hp ha).2
+      rcases (C11_unauthenticated_never_runs r hr req issued hfs hnow hsv hn hu hf hp ha).2
         (fun _ => .ran) with h | h | h
       · rw [h]; rfl
       · rw [h]; rfl
@@ -431,6 +533,9 @@ example : run chainGET (fun _ => .ran) (reqStatus .none .none) = .forbiddenAuth 
 example : run chainGET (fun _ => .ran) (reqStatus .unknown .none) = .forbiddenAuth := by decide
 example : run chainGET (fun _ => .ran) (reqStatus .expired .none) = .forbiddenAuth := by decide
 example : run chainGET (fun _ => .ran) (reqStatus .none .wrong) = .forbiddenAuth := by decide
+-- correct basic credentials from an address the login rate limiter blocks: not evaluated, 403
+example : run chainGET (fun _ => .ran) { reqStatus .none .right with addrBlocked := true }
+    = .forbiddenAuth := by decide
 -- quirk of the code: a stale cookie hides correct basic credentials
 example : run chainGET (fun _ => .ran) (reqStatus .unknown .right) = .forbiddenAuth := by decide
 -- the hypotheses of C11_unauthenticated_never_runs hold for a concrete route and request
